@@ -42,6 +42,7 @@ CONSTANTS Catalogue,  \* sequence of basis sets (each a sequence of K vectors of
           ThinT,      \* keep one training stack of two or more RDMs in ThinT
           PatSels,    \* set of pattern_idx sequences (0-based condition indices)
           CompMax,    \* competitor weights -CompMax..CompMax
+          NFam,       \* "fam" behaviours: model families over 1..NFam component models
           LinGrid     \* "lin" behaviours: second weight vector ranges over -LinGrid..LinGrid
 
 VARIABLES bid, train, pidx, pc, comp, th2, cc
@@ -165,6 +166,34 @@ PickThetas == /\ pc = "lin0"
               /\ th2' \in [1..K -> (-LinGrid)..LinGrid]
               /\ cc' \in {-2, 3} /\ pc' = "lin"
               /\ UNCHANGED <<objs, hist, bid, train, pidx, comp>>
+(* ---------------- model families and the bookkeeping of the model classes --------------- *)
+\* rsatoolbox.model.ModelFamily: the members are the non-empty subsets of the n component models, numbered in the
+\* order of itertools.combinations - by size, then lexicographically; member i is the weighted model over the
+\* component RDMs of subset i (in ascending order), so it has |subset| parameters
+SeqOfSet(S) == SortAsc(SetToSeq(S))
+LexLess(a, b) == \E i \in 1..Len(a) : a[i] < b[i] /\ \A j \in 1..(i - 1) : a[j] = b[j]
+FamLess(a, b) == Len(a) < Len(b) \/ (Len(a) = Len(b) /\ LexLess(a, b))
+FamilyList(n) == SortSeq(SetToSeq({SeqOfSet(S) : S \in (SUBSET (1..n)) \ {{}}}), FamLess)
+Indicator(n, sub) == [k \in 1..n |-> IF k \in Range(sub) THEN 1 ELSE 0]
+\* "fam" behaviours: comp = <<n, index>>
+MInit == /\ Common /\ train = <<>> /\ pidx = <<>> /\ th2 = <<>> /\ cc = 0
+         /\ \/ /\ pc = "fam" /\ bid = 1
+               /\ comp \in {<<n, i>> : n \in 1..NFam, i \in 1..(2 ^ NFam - 1)} /\ comp[2] <= 2 ^ comp[1] - 1
+            \/ /\ pc = "model" /\ bid \in 1..Len(Catalogue) /\ comp = <<>>
+\* indices <-> subsets is a bijection onto the non-empty subsets; sizes never decrease along the list
+FamilyBijection == pc = "fam" =>
+   LET n == comp[1]  FL == FamilyList(n) IN
+   /\ Len(FL) = 2 ^ n - 1
+   /\ {Range(FL[i]) : i \in 1..Len(FL)} = (SUBSET (1..n)) \ {{}}
+   /\ \A i \in 1..Len(FL) : \A j \in 1..Len(FL) : i < j => FL[i] # FL[j] /\ Len(FL[i]) <= Len(FL[j])
+   /\ \A i \in 1..Len(FL) : \A k \in 1..(Len(FL[i]) - 1) : FL[i][k] < FL[i][k + 1]
+\* bookkeeping of the model classes over a basis of K RDMs, and the predictions for theta = None
+Ones(n) == [k \in 1..n |-> 1]
+ModelFacts == [nparam |-> [w |-> K, s |-> 1, i |-> K, f |-> 0], nrdm |-> K,
+               fitter |-> [w |-> "fit_optimize", s |-> "fit_select", i |-> "fit_interpolate", f |-> "fit_mock", m |-> "fit_mock"],
+               defW |-> Predict(Ones(K), Basis),          \* weighted: all ones
+               defS |-> Basis[1],                         \* selection: the first RDM
+               defI2 |-> VAdd(Basis[1], Basis[2])]        \* interpolation: TWICE (1/2, 1/2, 0, ..)
 FNext == Adversary \/ PickThetas
 
 (* ---------------- theorems ------------------------------------------------------ *)
@@ -213,6 +242,10 @@ EmitF ==
                                  sel |-> IF Len(train) = 1 THEN SetSeq(BestSel(XCos(pidx), RC(train[1], pidx))) ELSE <<>>]]))
   /\ pc = "comp" =>
        PrintT(ToJson([t |-> "comp", bid |-> bid, train |-> train, pidx |-> pidx, k |-> comp.k, v |-> comp.v]))
+  /\ pc = "fam" =>
+       PrintT(ToJson([t |-> "fam", n |-> comp[1], i |-> comp[2], subset |-> FamilyList(comp[1])[comp[2]],
+                      ind |-> Indicator(comp[1], FamilyList(comp[1])[comp[2]])]))
+  /\ pc = "model" => PrintT(ToJson([t |-> "model", bid |-> bid, basis |-> Basis, facts |-> ModelFacts]))
   /\ pc = "lin" =>
        PrintT(ToJson([t |-> "lin", bid |-> bid, basis |-> Basis, th1 |-> comp, th2 |-> th2, c |-> cc,
                       p1 |-> Predict(comp, Basis), p2 |-> Predict(th2, Basis),
